@@ -34,7 +34,7 @@ FAULTS = ['dup name', 'dup name root', 'transitions on final', 'transitions on h
           'priority word', 'priority list', 'priority mapping', 'both kinds', 'missing statechart name', 'missing state name',
           'missing root state', 'transitions mapping', 'states scalar', 'contract scalar', 'parallel states scalar',
           'contract item scalar']
-REQUIRED_COUNTERS = ['valid_documents_accepted', 'faulted_documents_rejected', 'soundness_checks'] + ['fault_' + f for f in FAULTS]
+REQUIRED_COUNTERS = ['permissive_import_of_same_text_first', 'valid_documents_accepted', 'faulted_documents_rejected', 'soundness_checks'] + ['fault_' + f for f in FAULTS]
 
 
 def plan(tier):
@@ -278,6 +278,13 @@ def judge(acc, d2, applied, wit):
     else:
         text = build.dump_yaml(d2)
         acc.count('documents_as_block_yaml')
+    if (len(text) + len(applied)) % 5 == 0:
+        # the same text was loaded before with the checks switched off: the default import must still reject it
+        try:
+            import_from_yaml(text, ignore_schema=True, ignore_validation=True)
+        except Exception:       # noqa
+            pass
+        acc.count('permissive_import_of_same_text_first')
     verdict, res = try_import(text)
     labels = [a[0] for a in applied]
     if verdict == 'accepted':
